@@ -109,6 +109,23 @@ def _ended(it, pos: int) -> bool:
     return sum(1 for q, _ in it.fin if q < pos) >= n_init
 
 
+def _completed_before(tr, it, pos: int) -> bool:
+    """did the life of the instance that ended before event position `pos` run to completion?  (harness unit: Slow/OvA/OvB: n
+    complete in the exec call with iteration n-1, every other command in its first exec call)"""
+    ex = [q for q, _ in it.exec if q < pos]
+    if not ex:
+        return False
+    ev = tr.events[ex[-1]]
+    iteration, args = ev[6], ev[5]
+    if it.name in ("Slow", "OvA", "OvB"):
+        try:
+            n = int(float(args))
+        except (TypeError, ValueError):
+            return False
+        return iteration >= n - 1
+    return True
+
+
 def oracle(case, tr: C.Trace) -> tuple[list[Violation], dict]:
     out: list[Violation] = []
     info = {"conflicts_same": 0, "conflicts_overlap": 0, "instances": 0, "same_tick_starts": 0, "run_ends": 0, "restarts": 0,
@@ -166,6 +183,13 @@ def oracle(case, tr: C.Trace) -> tuple[list[Violation], dict]:
                          "was finalized in tick %d, then initialised again in tick %d and executed from iteration 0 (%d exec "
                          "callbacks after the accepted cancel)"
                          % (tag, cancelled_by_request[it.id][0], last_fin, tick, sum(1 for q, _ in it.exec if q > pos)))
+                    state = "initialised"
+                elif _completed_before(tr, it, pos):
+                    # the previous life ran to completion (no cancellation involved): the method line was requested again under
+                    # the instance id of its finished invocation (the interpreter takes record.last_instance_id)
+                    viol("reinit-after-finalize:completed-instance-requested-again",
+                         "%s: completed and finalized in tick %d, then the same instance id was initialised again in tick %d "
+                         "(%d exec callbacks afterwards)" % (tag, last_fin, tick, sum(1 for q, _ in it.exec if q > pos)))
                     state = "initialised"
                 else:
                     viol("reinit-after-finalize", "%s: finalized in tick %d, then initialised again in tick %d and executed "
